@@ -1479,6 +1479,14 @@ func evalEq(st *pstate, a, b *Sym) (bool, bool) {
 		if b.C == nil && definitelyNonNil(a) {
 			return false, true
 		}
+		// the first result of a (value, ok) function whose ok tells whether the value is nil
+		if b.C == nil && a.K == sRes && a.Idx == 0 && a.A != nil {
+			if f, _ := calleeOfSym(a.A); f != nil && commaOkFuncs[f] {
+				if v, known := evalBool(st, &Sym{K: sRes, A: a.A, Idx: 1}); known {
+					return !v, true
+				}
+			}
+		}
 		// an unsigned x: x == 0 is the negation of x > 0
 		if b.C != nil && b.C.Kind() == constant.Int && constant.Sign(b.C) == 0 && a.T != nil {
 			if bt, ok := a.T.Underlying().(*types.Basic); ok && bt.Info()&types.IsUnsigned != 0 {
@@ -2198,3 +2206,7 @@ func foldBits(st *pstate, x *ssa.BinOp, a, b *Sym) (*Sym, bool) {
 	}
 	return &Sym{K: sConst, C: res, T: x.Type()}, true
 }
+
+// commaOkFuncs: functions of the module returning (value, ok) for which ok is true exactly when value is not nil (the
+// rule that extracts the function's table checks that for every row).
+var commaOkFuncs = map[*ssa.Function]bool{}
